@@ -74,16 +74,35 @@ impl<S: SignalSystem> Env<S> {
             ..old(self).mon@ })
     { unimplemented!() }
 }
-impl From<ProcessResult> for ExitStatus {
-    #[verifier::external_body]
-    fn from(r: ProcessResult) -> (e: ExitStatus) ensures e == exit_status_of(r) { unimplemented!() }
-}
 impl vstd::std_specs::convert::FromSpecImpl<ProcessResult> for ExitStatus {
     open spec fn obeys_from_spec() -> bool { true }
     open spec fn from_spec(r: ProcessResult) -> ExitStatus { exit_status_of(r) }
 }
-/// the exit status a finished child stands for (yash-env/src/job.rs From<ProcessResult> for ExitStatus; uninterpreted)
-pub uninterp spec fn exit_status_of(r: ProcessResult) -> ExitStatus;
+/// the exit status a finished child stands for: its own status when it exited, the status that stands for the signal when
+/// it was stopped or killed (the real From<ProcessResult> for ExitStatus of yash-env/src/job.rs is verified against this)
+pub open spec fn exit_status_of(r: ProcessResult) -> ExitStatus {
+    match r {
+        ProcessResult::Exited(s) => s,
+        ProcessResult::Stopped(signal) => status_of_signal(signal),
+        ProcessResult::Signaled { signal, core_dump } => status_of_signal(signal),
+    }
+}
+impl vstd::std_specs::convert::TryFromSpecImpl<ProcessState> for ExitStatus {
+    open spec fn obeys_try_from_spec() -> bool { true }
+    open spec fn try_from_spec(state: ProcessState) -> std::result::Result<ExitStatus, RunningProcess> {
+        match state { ProcessState::Halted(res) => Ok(exit_status_of(res)), ProcessState::Running => Err(RunningProcess) }
+    }
+}
+/// yash-env/src/semantics.rs From<signal::Number> for ExitStatus (number + 0x180; uninterpreted here)
+pub uninterp spec fn status_of_signal(n: signal::Number) -> ExitStatus;
+impl From<signal::Number> for ExitStatus {
+    #[verifier::external_body]
+    fn from(n: signal::Number) -> (e: ExitStatus) ensures e == status_of_signal(n) { unimplemented!() }
+}
+impl vstd::std_specs::convert::FromSpecImpl<signal::Number> for ExitStatus {
+    open spec fn obeys_from_spec() -> bool { true }
+    open spec fn from_spec(n: signal::Number) -> ExitStatus { status_of_signal(n) }
+}
 
 /// nothing went wrong between two monitor states: no status was lost, no wait() ran unarmed, no sleep was out of place,
 /// and no reported status is waiting to be forwarded
